@@ -67,6 +67,8 @@ func (l *streamLog) metricsAfter(reference time.Time, maxReportBlocks int64) rtc
 			MetricBlocks:  []rtcp.CCFeedbackMetricBlock{},
 		}
 	}
+	// A report block can't hold more metric blocks than its 16 bit num_reports field allows.
+	maxReportBlocks = min(maxReportBlocks, maxReportsPerReportBlock)
 	numReports := l.lastSequenceNumberReceived - l.nextSequenceNumberToReport + 1
 	if numReports > maxReportBlocks {
 		numReports = maxReportBlocks
